@@ -155,8 +155,9 @@ fn yaml_scalar(v: &Value) -> String {
         Value::String(s) => {
             // quote everything that YAML could misread
             let plain_ok = !s.is_empty()
-                && s.chars().all(|c| c.is_ascii_alphanumeric() || "/._-".contains(c))
-                && !s.starts_with(['-', '.'])
+                && s.chars().all(|c| c.is_ascii_alphanumeric() || "/._-*@".contains(c))
+                && !s.starts_with(['-', '*', '@'])
+                && (!s.starts_with('.') || s.starts_with("./") || s.starts_with("../"))
                 && !matches!(s.as_str(), "true" | "false" | "null" | "yes" | "no" | "on" | "off")
                 && s.parse::<f64>().is_err();
             if plain_ok { s.clone() } else { serde_json::to_string(s).unwrap() }
